@@ -405,7 +405,7 @@ def kde(xy, ngrid=50, eps=1e-10):
     xx, yy = np.meshgrid(x, y)
 
     if eps > 0.:
-        xy += np.random.uniform(-eps, eps, size=xy.shape)
+        xy = xy + np.random.uniform(-eps, eps, size=xy.shape)
 
     kd = gaussian_kde(xy.T)
     zz = kd(np.vstack([xx.ravel(), yy.ravel()]))
@@ -675,6 +675,9 @@ def scattercat(ax, x, y, z, ncats=5, cuts=None, cmap="PiYG",
                 # Create categories
                 qq = np.linspace(0, 1, ncats+1)
                 cuts = list(z.quantile(qq))
+            else:
+                # Work on a copy, the end cuts are modified below
+                cuts = list(cuts)
 
             # make sure the cuts cover the full range
             if cuts[0] >= z.min():
